@@ -73,6 +73,7 @@ func init() {
 		Holds:    true,
 		DupDAG:   true,
 		BigSets:  6,
+		EmptyDAG: true,
 	}
 	fw.Families["C13"] = func(k *fw.Case) { trace.RunCase(k, c13) }
 
@@ -85,6 +86,9 @@ func init() {
 		PoolProb:    0.35,
 		Holds:       true,
 		StopSetters: 2,
+		// name lists with unknown names / no existing name at all: the tagged variants must treat them like
+		// their twins without a tag do
+		UnknownNames: true,
 	}
 	fw.Families["C14"] = func(k *fw.Case) {
 		trace.RunCase(k, c14)
